@@ -130,7 +130,7 @@ func main() {
 	switch os.Args[1] {
 	case "cases":
 		// every stated case on the implementation as it is now: "<property> <id> pass|FAIL <what fails>"
-		for _, pr := range []string{"C01", "C04", "C05", "C07", "C08", "C10", "C11", "C12", "C13", "C15", "C17", "C19", "C20"} {
+		for _, pr := range []string{"C01", "C02", "C04", "C05", "C07", "C08", "C10", "C11", "C12", "C13", "C15", "C17", "C19", "C20"} {
 			ctx := &Ctx{Prop: pr, Tier: "quick", Seed: 1, Rng: NewRng(1), Cov: NewCover(), models: map[string]*ModelProc{}, start: time.Now()}
 			runStatedCases(ctx)
 			failed := map[string]string{}
